@@ -453,6 +453,9 @@ func checkC19(c CaseC19) (*vkit.Failure, vkit.Meta) {
 			m.Labels = append(m.Labels, "caller-stopped-at-error-item")
 			rerr = nil
 		}
+		// (A run that FAILS - e.g. a non-streaming consumer inside the graph meets the error item - is outside the
+		// statement, which speaks of runs that complete and whose output stream is read or closed; the framework
+		// does leave producers blocked then, e.g. behind a stream parked in END's channel: see DESIGN.md 9.2.)
 		if err != nil || rerr != nil {
 			// the run itself failed although the model says it succeeds: C01/C02's business
 			m.Labels = append(m.Labels, "run-failed")
